@@ -6,7 +6,7 @@
 EXTENDS Integers, Sequences, FiniteSets, TLC, Json
 
 CONSTANTS ExpNames, ImpNames, Keys, Vals, MaxOps, TraceFile
-VARIABLES exp, imp, op, clk, l
+VARIABLES exp, imp, op, clk, lines, l
 
 T == INSTANCE Transfer
 
@@ -19,6 +19,7 @@ Dispatch(o) ==
   CASE o.name = "PutExp" -> T!PutExp(o.n, o.k, o.v)
     [] o.name = "PutImp" -> T!PutImp(o.n, o.k, o.v)
     [] o.name = "Import" -> T!Import(o.mode, o.who)
+    [] o.name = "ExportJSONL" -> T!ExportJSONL(o.n)
     [] OTHER -> FALSE
 
 TraceOp ==
@@ -26,14 +27,15 @@ TraceOp ==
   /\ Dispatch(Ev.op)
   /\ imp' = Obs(Ev.imp, ImpNames)
   /\ exp' = Obs(Ev.exp, ExpNames)
+  /\ (Ev.op.name = "ExportJSONL" => lines' = {<<Ev.lines[i][1], Ev.lines[i][2], Ev.lines[i][3]>> : i \in DOMAIN Ev.lines})
 
 TraceReset ==
   /\ l <= Len(Trace) /\ Ev.ev = "reset" /\ l' = l + 1
   /\ exp' = [n \in ExpNames |-> T!Empty] /\ imp' = [n \in ImpNames |-> T!Empty]
-  /\ op' = [name |-> "Init", n |-> "", k |-> "", v |-> "", mode |-> "", who |-> ""] /\ clk' = 0
+  /\ op' = [name |-> "Init", n |-> "", k |-> "", v |-> "", mode |-> "", who |-> ""] /\ clk' = 0 /\ lines' = {}
 
 TraceInit == T!Init /\ l = 1
-TraceSpec == TraceInit /\ [][TraceOp \/ TraceReset]_<<exp, imp, op, clk, l>>
+TraceSpec == TraceInit /\ [][TraceOp \/ TraceReset]_<<exp, imp, op, clk, lines, l>>
 
 TraceAccepted ==
   LET d == TLCGet("stats").diameter IN
